@@ -134,9 +134,11 @@ impl<'a> TryFrom<Checksum<'a>> for SmallString {
         let mut algorithms: Vec<_> = value.algorithms.into_iter().collect();
         algorithms.sort_unstable_by(|a, b| a.0.cmp(&b.0));
 
+        // One ':' per entry plus a ',' between entries. There may be no entries at all.
         let mut v = String::with_capacity(
-            algorithms.iter().map(|(k, v)| k.len() + 1 + v.len()).sum::<usize>() + algorithms.len()
-                - 1,
+            (algorithms.iter().map(|(k, v)| k.len() + 1 + v.len()).sum::<usize>()
+                + algorithms.len())
+            .saturating_sub(1),
         );
         for (algorithm, bytes) in algorithms {
             if bytes.chars().any(|b| !b.is_ascii_hexdigit()) || bytes.len() % 2 != 0 {
